@@ -232,11 +232,11 @@ class Piece:
     """Extracted region + mechanical transforms + spec insertions."""
 
     def __init__(self, region, drop_comments=True, drop_attrs=(), drop_tokens=(), rewrite_asserts=False, keep_attrs=False,
-                 renames=()):
+                 renames=(), drop_blocks=()):
         self.region = region
         self.transforms = []
         self.params = dict(drop_comments=drop_comments, drop_attrs=tuple(drop_attrs), drop_tokens=tuple(drop_tokens),
-                           rewrite_asserts=rewrite_asserts, renames=tuple(renames))
+                           rewrite_asserts=rewrite_asserts, renames=tuple(renames), drop_blocks=tuple(drop_blocks))
         self.base = self._transform(region.text)
         self.inserts = []  # (offset in base, text, label)
 
@@ -260,6 +260,16 @@ class Piece:
                 raise LostAnchor("token to drop occurs %d times in %s: %r" % (t.count(tok), self.region.src.rel, tok))
             t = t.replace(tok, "")
             self.transforms.append("token dropped: %r" % tok)
+        for head in p["drop_blocks"]:
+            i = t.find(head)
+            if i < 0 or t.find(head, i + 1) >= 0:
+                raise LostAnchor("block to drop occurs %d times in %s: %r" % (t.count(head), self.region.src.rel, head))
+            ls = t.rfind("\n", 0, i) + 1
+            e = match_brace(t, t.index("{", i))
+            if t[e:e + 1] == "\n":
+                e += 1
+            t = t[:ls] + t[e:]
+            self.transforms.append("block dropped (logging only): %r { .. }" % head)
         for old, new in p["renames"]:
             if old in t:
                 t = t.replace(old, new)
